@@ -16,7 +16,9 @@ from .models.sqlmodel import SqlModelCodeGenerator
 try:
     import ruamel.yaml as yaml
 
-    yaml_load = yaml.YAML(typ='safe', pure=True).load
+    def yaml_load(stream):
+        # A YAML instance keeps the state of the document it is parsing: one instance per call (a shared one breaks concurrent loads)
+        return yaml.YAML(typ='safe', pure=True).load(stream)
 except ImportError:
     try:
         import yaml
